@@ -321,7 +321,10 @@ def parse_email(data: bytes | str) -> tuple[RawMetadata, dict[str, list[str]]]:
     # We have to wrap parsed.keys() in a set, because in the case of multiple
     # values for a key (a list), the key will appear multiple times in the
     # list of keys, but we're avoiding that by using get_all().
-    for name in frozenset(parsed.keys()):
+    # (Sorted, so that the order of the keys in the returned dicts, and with it the
+    # order of the errors `Metadata.from_email` reports, does not depend on the
+    # hash seed.)
+    for name in sorted(frozenset(parsed.keys())):
         # Header names in RFC are case insensitive, so we'll normalize to all
         # lower case to make comparisons easier.
         name = name.lower()
@@ -746,7 +749,8 @@ class Metadata:
             # Remove fields that have already been checked.
             fields_to_check -= {"metadata_version"}
 
-            for key in fields_to_check:
+            # Sorted, so that the order of the reported errors is reproducible.
+            for key in sorted(fields_to_check, key=str):
                 try:
                     # Can't use getattr() as that triggers descriptor protocol which
                     # will fail due to no value for the instance argument.
